@@ -939,3 +939,17 @@ def overlap_tdefs(rng, names):
         else:
             out[n] = TDef("str", n)
     return out
+
+
+# Lexical ambiguity with tokens of different lengths, some of which span layout
+# characters: heads at different positions meet in one shift, a longer token
+# can end in or after trailing layout.  Inputs are strings over LEX_ALPHABET.
+LEX_ALPHABET = "ab "
+LEX_CORPUS = [
+    ("lex-span", G_("S: P w; P: A | ; A: a", {"a": TDef("str", "a"), "w": TDef("re", "[a-z][a-z ]*[a-z]")})),
+    ("lex-runs", G_("S: B; A: x | x x A; B: | A y", {"x": TDef("re", "[ab]"), "y": TDef("re", "b+")})),
+    ("lex-mixed", G_("S: c | B S b | S A B; A: a | S; B: | c", {"c": TDef("re", "b+"), "b": TDef("str", "a"), "a": TDef("re", "[ab]{2}")})),
+    ("lex-rest-of-line", G_("S: t | W; W: w | W w", {"t": TDef("re", "[a-z ]+"), "w": TDef("re", "[a-z]+")})),
+    ("lex-word-pairs", G_("S: X Y | z; X: p; Y: q |", {"p": TDef("re", "a+"), "q": TDef("re", "a*b"), "z": TDef("re", "a+[ ]?b")})),
+    ("lex-sep", G_("S: I | I s S; I: i | i i", {"i": TDef("re", "[ab]"), "s": TDef("re", "[ ]*b[ ]*")})),
+]
